@@ -86,7 +86,8 @@ Section C08.
     names_known (ca_apps c) (ca_apps a) (map bi_binary (gr_builds r)) = true /\
     (forall p q, ca_local a = Some p -> ca_local c = Some q -> p = q) /\
     ca_select c = ca_select a /\ ca_disable c = ca_disable a /\
-    exists x y, cli_env c = Ok x /\ cli_env a = Ok y /\ env_same x y = true.
+    (exists x y, cli_env c = Ok x /\ cli_env a = Ok y /\ env_same x y = true) /\
+    ca_info a = false.                  (* a run with --info-export never reads the cache *)
   Proof. exact caccepts_spec. Qed.
 
   (* ... and a recorded file that changed (other version, or gone) invalidates it *)
@@ -101,7 +102,7 @@ Section C08.
   Proof. exact appeared_file_invalidates. Qed.
 
   (* An unchanged project with an identical command line is served from the cache. *)
-  Theorem C08_identical_command_line_hits : forall a (w w1 : world) r,
+  Theorem C08_identical_command_line_hits : forall a (w w1 : world) r, ca_info a = false ->
     crun H EV bd store a 0 w = (w1, ORegen r) -> exists k, crun H EV bd store a k w1 = (w1, OHit (cview a r)).
   Proof. exact (identical_command_line_hits H EV bd store). Qed.
 
